@@ -23,6 +23,8 @@ happens without it).
 import CtyModel.Lemmas.ConvertUnknown
 import CtyModel.Lemmas.ConvertTotal
 import CtyModel.Lemmas.ConvertSafe
+import CtyModel.Lemmas.ConvertRoundtrip
+import CtyModel.Generated.PrimConv
 namespace CtyModel
 namespace C08
 open Convert Ty
@@ -361,6 +363,53 @@ ever offered (so "tuple → list → tuple" cannot be asked for). -/
 theorem roundtrip_tuple_list_no_inverse (E : Env) (e : Ty) (ts : List Ty) (uns : Bool) :
     getConv E (.list e) (.tuple ts) uns = none := by
   simp [getConv, gck, Ty.isDyn, isPrim]
+
+/-- A tuple whose elements all have the placeholder-free type `T` converts to
+`list(T)` holding the same elements in the same order (nothing is lost on the way;
+by `roundtrip_tuple_list_no_inverse` there is no way back to ask for). -/
+theorem roundtrip_tuple_list (E : Env) (hU : UnifyLaws E) (fuel : Nat) (T : Ty) (its : List Ty)
+    (ps : List Payload) (hT : wf T = true) (hTo : hasOpt T = false) (hTd : hasDyn T = false)
+    (hne : its ≠ []) (hall : ∀ it ∈ its, it = T) (hw : wtZip its ps = true) :
+    convert E (fuel + 2) ⟨.tuple its, .seq ps⟩ (.list T) = .ok ⟨.list T, .seq ps⟩ :=
+  tuple_to_list_same hU fuel T its ps hT hTo hTd hne hall hw
+
+/-- object → map → object: an object whose attributes all have the placeholder-free
+type `T` (and hold no null) converts to `map(T)` with the same keys and members, and
+converting that map back to the object type returns the original value. -/
+theorem roundtrip_object_map (E : Env) (hU : UnifyLaws E) (fuel : Nat) (T : Ty) (ns : List String)
+    (its : List Ty) (os : List Bool) (ps : List Payload) (hT : wf T = true) (hTo : hasOpt T = false)
+    (hTd : hasDyn T = false) (hne : its ≠ []) (hall : ∀ it ∈ its, it = T) (hos : ∀ o ∈ os, o = false)
+    (hw : wtZip its ps = true) (hnd : ns.Nodup) (hln : ns.length = its.length)
+    (hlo : os.length = its.length) (hnn : ∀ p ∈ ps, p.isNull = false) :
+    convert E (fuel + 2) ⟨.object ns its os, .smap ns ps⟩ (.map T) = .ok ⟨.map T, .smap ns ps⟩ ∧
+    convert E (fuel + 2) ⟨.map T, .smap ns ps⟩ (.object ns its os) =
+      .ok ⟨.object ns its os, .smap ns ps⟩ :=
+  ⟨object_to_map_same hU fuel T ns its os ps hT hTo hTd hne hall hw hln,
+   map_to_object_same fuel T ns its os ps hT hTd hall hos hnd hln hlo (wtZip_length hw).symm hnn⟩
+
+example : convert Env.simple 2 ⟨.object ["a", "b"] [.string, .string] [false, false],
+      .smap ["a", "b"] [.s "x", .unk .unref]⟩ (.map .string) =
+    .ok ⟨.map .string, .smap ["a", "b"] [.s "x", .unk .unref]⟩ := rfl
+
+/-! ## Conversion to the placeholder itself, and the primitive tables -/
+
+/-- Converting to DynamicPseudoType itself returns the value as it is. -/
+theorem to_placeholder_passthrough (E : Env) (fuel : Nat) (v : Value) (hm : v.isMarked = false) :
+    convert E (fuel + 1) v .dyn = .ok v := by
+  unfold convert convertWith
+  split
+  · rfl
+  · have : getConv E v.ty .dyn true = some (.wrap .dyn .dynPass) := by
+      simp [getConv, gck, Ty.isDyn]
+    simp [this, apply, applyStep, hm, Ty.isDyn]
+
+/-- The primitive conversions of the model are exactly the keys of
+`primitiveConversionsSafe` / `primitiveConversionsUnsafe` as re-read from the source
+on every check (`Generated/PrimConv.lean`). -/
+theorem primConv_table (a b : Ty) (ha : isPrim a = true) (hb : isPrim b = true) :
+    (primSafe a b).isSome = Generated.primConvSafe.any (fun p => p.1.equals a && p.2.equals b) ∧
+    (primUnsafe a b).isSome = Generated.primConvUnsafe.any (fun p => p.1.equals a && p.2.equals b) := by
+  cases a <;> simp [isPrim] at ha <;> cases b <;> simp [isPrim] at hb <;> decide
 
 /-! ## Non-vacuity: the hypotheses are satisfiable by non-trivial inputs -/
 
